@@ -1,6 +1,10 @@
 """Fixed case counts per tier (counts, not wall budgets: one seed explores the same cases)."""
 
 TIERS = {
+    "C01": {
+        "quick": {"cases": 3000, "m_seeded": 3, "flip_n": 12, "wall": 600, "echo": 48},
+        "thorough": {"cases": 150000, "m_seeded": 16, "flip_n": 24, "wall": 7200, "echo": 256},
+    },
     "C09": {
         "quick": {"cases": 6000, "m_seeded": 3, "flip_n": 16, "wall": 600, "echo": 64},
         "thorough": {"cases": 250000, "m_seeded": 12, "flip_n": 32, "wall": 7200, "echo": 256},
@@ -25,7 +29,33 @@ def _faults_c09(wstats, clock, probes, sites):
     return out
 
 
+def _faults_c01(wstats, clock, probes, sites):
+    out = _faults_c09(wstats, clock, probes, sites)
+    out.pop("unsupported_construct_spliced", None)
+    out.pop("knob:open_repeat_min>max_repeat", None)
+    for k in ("jump_forward", "jump_backward", "midnight_rollover", "microsecond_edge"):
+        out["clock:" + k] = clock.get(k, 0)
+    out["entropy:uuid4_reads"] = wstats.get("uuid4_reads", 0)
+    out["prng:randint_empty_range_raised"] = wstats.get("randint_empty_range", 0)
+    out["prng:choice_from_empty_raised"] = wstats.get("choice_empty", 0)
+    return out
+
+
 META = {
+    "C01": {
+        "rule": "cases = hereditarily satisfiable schema specs (witness-first, swarm knobs, 13 types + alias, "
+                "+ | % make_required) x generation route x draw schedules (lo, hi, alt, single flips, seeded, "
+                "mixed) x clock/entropy scripts. evaluations = fake()+validate() executions. distinct+nontrivial "
+                "= distinct (schema shape signature, set of (draw site, selector) pairs fired) with >=1 draw consumed.",
+        "real_vs_stub": {"real": REAL, "stub": STUB},
+        "assumptions": [
+            "satisfiability of every counted schema is verified with the real validator (witness or a generated value accepted)",
+            "SimStdRandom returns only outcomes the stdlib random module can return for the same arguments",
+            "virtual clock stays within 2000-01-01..2100-12-31; float bounds are finite and |x| <= 1e20",
+            "private generator constants (INT_MAX, STR_LEN_MAX...) are not varied; public knobs are",
+        ],
+        "fault_kinds": _faults_c01,
+    },
     "C09": {
         "rule": "cases = regex programs drawn from the supported-construct grammar (+ spliced unsupported "
                 "constructs) x RegexGenerator knobs x draw schedules (lo, hi, alt, every single flip of the "
